@@ -131,3 +131,11 @@ CLAIMS["C13"] = {
     "note": "Quiescent-point lookups only; relies on client-go's in-order handler notifications for the barrier.",
     "technique": "stateful property-based testing (rapid state machine) against a pod model with a black-box quiescence barrier",
 }
+
+CLAIMS["C16"] = {
+    "text": "Fault enumeration: for each HTTP backend variant (datadog, influxdb v1/v2, newrelic infra/insights/metrics, otlp, cloudwatch) every per-attempt outcome script of length <= 3 (<= 4 thorough) over {2xx, 5xx, transport error} x {then recovers, then keeps failing until the retry window ends} x {0, 1, 3} batches x "
+            "{no cancellation, cancelled before the call, when attempt 1 or 2 starts, while an attempt waits for its retry timer} is executed through a scripted RoundTripper on a mock clock, each followed by a clean flush on the same backend; then random longer scripts (partly through a real MetricFlusher, whose flush must return), "
+            "sender.Sender with scripted connect/write failures and cancelled streams, and graphite / statsdaemon (tcp, udp) / stdout / null against loopback listeners that accept, were closed, with cancelled requests. Oracle per request: exactly one completion callback, an error whenever the last attempt of some request body failed, no panic, the call returns, the following request completes.",
+    "note": "The expected error is derived from the attempts observed at the RoundTripper (grouped by body), so it does not depend on how goroutines interleave. A second callback arriving later than the grace period would be missed. Real-time reconnect timers bound the socket cases.",
+    "technique": "fault enumeration over scripted transport outcomes + property-based testing (rapid) for longer scripts, on a mock clock",
+}
